@@ -109,6 +109,34 @@ func genC10(tier, out string, sum *Summary) {
 			relate(flat, paren, tree)
 		}
 	}
+	// "for all operand expressions": the same pairs with operands of every syntactic shape that evaluates to
+	// the plain field (selectors, indexes, calls, multi-selects, literals in the data, pipes in parentheses)
+	shapes := []string{"%s", "(%s)", "@.%s", "[%s][0]", "{k: %s}.k", "not_null(%s)", "[%s, `0`][0]", "[%s][-1]", "[[%s]][0][0]", "(%s | @)", "{k: [%s]}.k[0]", "([%s][0:1])[0]", "([%s][?`true`])[0]", "not_null(`null`, %s)", "([%s] | [0])"}
+	for _, o1 := range binSpellings {
+		for _, o2 := range binSpellings {
+			if o1.text != o1.ascii || o2.text != o2.ascii {
+				continue
+			}
+			reps := 3
+			if tier == "thorough" {
+				reps = 40
+			}
+			for r := 0; r < reps; r++ {
+				fa, fb, fc := fmt.Sprintf(pick(shapes), "a"), fmt.Sprintf(pick(shapes), "b"), fmt.Sprintf(pick(shapes), "c")
+				flat := fa + " " + o1.text + " " + fb + " " + o2.text + " " + fc
+				var paren string
+				if o1.level >= o2.level {
+					paren = "(" + fa + " " + o1.text + " " + fb + ") " + o2.text + " " + fc
+				} else {
+					paren = fa + " " + o1.text + " (" + fb + " " + o2.text + " " + fc + ")"
+				}
+				plain := "a " + o1.text + " b " + o2.text + " c"
+				sum.count("shaped-operands")
+				relate(flat, paren, nil)
+				relate(flat, plain, nil)
+			}
+		}
+	}
 	// triples (sampled in quick, all in thorough)
 	for _, o1 := range binSpellings {
 		for _, o2 := range binSpellings {
